@@ -992,3 +992,64 @@ func RunSizeControls(r *Report) {
 	}
 	r.Floor("sizecontrol", 9)
 }
+
+// RunAllocControls runs the allocation-bound rule on the ctlAlloc* examples.
+func RunAllocControls(r *Report) {
+	r.Rule("alloccontrol: the allocation-bound rule, run on the must-report and must-pass examples in /verif/controls/alloc.go, reports every allocation whose size the input controls without limit (a 32-bit count, a product of two 16-bit counts, a map reservation, a guard on another value) and none that is capped or proportional to data in memory")
+	cw, err := controlWorld(r.verifDir)
+	if err != nil {
+		r.Fail("alloccontrol", r.MkKey("alloccontrol", "controls", "load"), "-", "cannot load the control package: "+err.Error(), nil)
+		return
+	}
+	var fns []*ssa.Function
+	for _, f := range cw.LibFuncs() {
+		if strings.HasPrefix(f.Name(), "ctlAlloc") && f.Parent() == nil {
+			fns = append(fns, f)
+		}
+	}
+	sort.Slice(fns, func(i, j int) bool { return fnName(fns[i]) < fnName(fns[j]) })
+	sub := NewReport(r.Property, r.Tier, r.verifDir)
+	sub.table = map[string]TableEntry{}
+	sub.known = map[string]KnownFinding{}
+	sub.W = cw
+	func() {
+		defer func() {
+			if x := recover(); x != nil {
+				r.Fatal("allocbound panic on the control package: %v", x)
+			}
+		}()
+		RunAllocBound(cw, sub, newBoundsRun(cw), fns)
+	}()
+	sub.Floors = map[string]int{}
+	for _, fn := range fns {
+		reported, total := "", 0
+		for _, o := range sub.Obls {
+			if o.Rule != "allocbound" {
+				continue
+			}
+			parts := strings.Split(o.Key, "|")
+			if len(parts) < 2 || parts[1] != fnName(fn) {
+				continue
+			}
+			total++
+			if o.Status == StViolation && reported == "" {
+				reported = o.Detail
+			}
+		}
+		key := r.MkKey("alloccontrol", fn.Name(), "verdict")
+		bad := strings.HasPrefix(fn.Name(), "ctlAllocBad")
+		switch {
+		case total == 0:
+			r.Fail("alloccontrol", key, cw.Pos(fn.Pos()), "the rule found no allocation in this example", nil)
+		case bad && reported != "":
+			r.OK("alloccontrol", key, cw.Pos(fn.Pos()), "reported")
+		case bad:
+			r.Fail("alloccontrol", key, cw.Pos(fn.Pos()), "the input controls the size of this allocation without limit and the rule accepts it: the rule is unsound", nil)
+		case reported == "":
+			r.OK("alloccontrol", key, cw.Pos(fn.Pos()), "accepted")
+		default:
+			r.Fail("alloccontrol", key, cw.Pos(fn.Pos()), "this bounded allocation is reported: "+reported, nil)
+		}
+	}
+	r.Floor("alloccontrol", 7)
+}
